@@ -80,22 +80,25 @@ theorem fixedDecode_round (d : Int) (x : Rat) :
 
 theorem decimalsFrom_sound (fuel : Nat) (d0 : Int) (xs : List Rat) (tol : Rat) (d : Int)
     (h : decimalsFrom fuel d0 xs tol = some d) :
-    maxAbs xs * pow10 d < 2147483647 ∧ ∀ x ∈ xs, absQ (roundDec d x - x) < tol * absQ x := by
+    d ≤ 18 ∧ maxAbs xs * pow10 d < 2147483647 ∧ ∀ x ∈ xs, absQ (roundDec d x - x) < tol * absQ x := by
   induction fuel generalizing d0 with
   | zero => simp [decimalsFrom] at h
   | succ fuel ih =>
     simp only [decimalsFrom] at h
     split at h
     · cases h
-    · rename_i hfit
+    · rename_i h18
       split at h
-      · rename_i hall
-        injection h with h; subst h
-        refine ⟨not_not.mp hfit, ?_⟩
-        intro x hx
-        have := List.all_eq_true.mp hall x hx
-        simpa using this
-      · exact ih _ h
+      · cases h
+      · rename_i hfit
+        split at h
+        · rename_i hall
+          injection h with h; subst h
+          refine ⟨by omega, not_not.mp hfit, ?_⟩
+          intro x hx
+          have := List.all_eq_true.mp hall x hx
+          simpa using this
+        · exact ih _ h
 
 theorem interval_err (mn mx x : Rat) (n : Nat) (hn : 2 ≤ n) (hlt : mn < mx) (hx1 : mn ≤ x) (hx2 : x ≤ mx) :
     0 ≤ intervalDecode mn mx n (intervalEncode mn mx n x) - x ∧
